@@ -1,16 +1,244 @@
-(* C19 - ticks.  Only statements closed by [exact] and their assumptions. *)
-From Coq Require Import List ZArith Sorted Znumtheory.
+(* C19 - ticks are the floored elapsed time and never decrease along a branch.
+   Only statements closed by [exact] and their assumptions, plus non-vacuity examples.
+
+   Model: Herc.Plumbing.Ticks (ticks.go and the part of package time it uses).  Times are Z
+   nanoseconds since Go's zero time (year 1); [run] executes Consume / Fork / Merge on any number of
+   branches that share tick0 and the registry; [lineages ops outs [[]]] is, per branch, the list of
+   (commit, tick) consumed along it (a fork copies the history of its origin) and [consumed ops outs]
+   the list of all consumed (commit, tick) in order. *)
+From Coq Require Import List ZArith Sorted Znumtheory Bool.
 From Herc Require Import Plumbing.Ticks Plumbing.TicksArith Plumbing.TicksProofs.
 Import ListNotations.
 Open Scope Z_scope.
 
+(* ---------------------------------------------------------------- FloorTime *)
+
+(* floor_time t d is the greatest multiple of d (counted from the zero time) that is not after t *)
 Theorem C19_floor : forall t d, 0 < d ->
   (d | floor_time t d) /\ floor_time t d <= t < floor_time t d + d /\
   (forall m, (d | m) -> m <= t -> m <= floor_time t d).
 Proof. exact floor_time_spec. Qed.
 Print Assumptions C19_floor.
 
+Theorem C19_floor_value : forall t d, 0 < d -> floor_time t d = d * (t / d).
+Proof. exact floor_time_eq. Qed.
+Print Assumptions C19_floor_value.
+
+(* a tick size <= 0 (reachable only through a negative configuration value) floors nothing *)
+Theorem C19_floor_nonpositive : forall t d, d <= 0 -> floor_time t d = t.
+Proof. exact floor_time_nonpos. Qed.
+Print Assumptions C19_floor_nonpositive.
+
+(* the oracle the replay applies to the real FloorTime is this specification *)
+Theorem C19_floor_oracle : forall t d r, 0 < d -> floor_ok t d r = true <-> r = d * (t / d).
+Proof. exact floor_ok_iff. Qed.
+Print Assumptions C19_floor_oracle.
+
+(* ---------------------------------------------------------------- one Consume *)
+
+(* For a positive tick size d, with t the committer time and t0 the shared start after the call
+   (the floored committer time when index = 0, otherwise unchanged):
+   - the tick is max(previous, (t - t0) quot d) with the subtraction saturated to +-2^63 ns;
+   - where Time.Sub does not saturate (|t - t0| within ~292 years) and previous >= 0 (true in every
+     reachable state, C19_previous_tick) it is max(previous, floor((t - t0) / d));
+   - beyond +292 years it is max(previous, (2^63-1) quot d): the elapsed time is cut off;
+   - a commit that is not after t0 (another root that is older than the first analysed commit)
+     gets the previous tick of its branch. *)
+Theorem C19_tick : forall s b index c s' b' k,
+  consume_branch s b index c = (s', b', k) ->
+  let d := tick_size b in
+  let t := c_when c in
+  let t0 := tick0 s' in
+  0 < d ->
+  t0 = (if index =? 0 then floor_time t d else tick0 s) /\
+  k = Z.max (previous_tick b) (Z.quot (time_sub t t0) d) /\
+  (in_range t0 t = true -> k = Z.max (previous_tick b) (Z.quot (t - t0) d)) /\
+  (in_range t0 t = true -> 0 <= previous_tick b -> k = Z.max (previous_tick b) ((t - t0) / d)) /\
+  (max_duration < t - t0 -> k = Z.max (previous_tick b) (Z.quot max_duration d)) /\
+  (t <= t0 -> 0 <= previous_tick b -> k = previous_tick b).
+Proof. exact consume_tick_formula. Qed.
+Print Assumptions C19_tick.
+
+(* whole periods between the start of the first commit's period and t = difference of period numbers *)
+Theorem C19_periods : forall t first d, 0 < d -> (t - spec_t0 first d) / d = t / d - first / d.
+Proof. exact periods_between. Qed.
+Print Assumptions C19_periods.
+
+(* ---------------------------------------------------------------- all runs, all inputs *)
+
+(* ticks never decrease along the history of any branch: every configuration (also tick sizes <= 0),
+   every sequence of operations, every committer time (saturation included) *)
 Theorem C19_monotone : forall cfg ops s' outs, run (init_sys cfg) ops = (s', outs) ->
   forall l, In l (lineages ops outs [[]]) -> Sorted Z.le (0 :: ticks l).
 Proof. exact ticks_monotone. Qed.
 Print Assumptions C19_monotone.
+
+(* the branch-local previousTick is the last tick given along the branch (0 before the first) *)
+Theorem C19_previous_tick : forall cfg ops s' outs, run (init_sys cfg) ops = (s', outs) ->
+  Forall2 (fun br l => previous_tick br = last (ticks l) 0 /\ 0 <= previous_tick br)
+          (brs s') (lineages ops outs [[]]).
+Proof. exact previous_tick_last. Qed.
+Print Assumptions C19_previous_tick.
+
+(* every consumed commit is listed in the registry under the tick it was given *)
+Theorem C19_registry_listed : forall cfg ops s' outs, run (init_sys cfg) ops = (s', outs) ->
+  forall c k, In (c, k) (consumed ops outs) -> In (c_hash c) (reg_get (commits (sh s')) k).
+Proof. exact registry_lists_all. Qed.
+Print Assumptions C19_registry_listed.
+
+(* what the reverse duplicate scan achieves for all inputs: a commit that has parents whenever it is
+   consumed (a replayed merge commit) is never listed twice under the same tick.  It may be listed
+   under two different ticks (C19_example_replay_under_two_ticks) and a commit without parents is
+   not scanned for at all (C19_example_root_replayed). *)
+Theorem C19_registry_scan : forall cfg ops s' outs h, run (init_sys cfg) ops = (s', outs) ->
+  (forall c k, In (c, k) (consumed ops outs) -> c_hash c = h -> (0 < c_parents c)%nat) ->
+  forall k, (count_occ Z.eq_dec (reg_get (commits (sh s')) k) h <= 1)%nat.
+Proof. exact registry_scan. Qed.
+Print Assumptions C19_registry_scan.
+
+(* ---------------------------------------------------------------- runs as the pipeline makes them:
+   forks only (the pristine root clone), then the first commit with index 0 on an existing branch,
+   then any operations whose commits carry an index other than 0; positive tick size *)
+
+(* the shared start of tick 0 is the start of the first analysed commit's period *)
+Theorem C19_start : forall cfg pre b0 c0 rest s' outs,
+  0 < initialize (configure cfg) ->
+  Forall no_consume pre ->
+  Forall (fun o => index_nonzero o = true) rest ->
+  run (init_sys cfg) (pre ++ OConsume b0 0 c0 :: rest) = (s', outs) ->
+  nth_error outs (length pre) <> Some RBad ->
+  let d := initialize (configure cfg) in
+  let t0 := spec_t0 (c_when c0) d in
+  tick0 (sh s') = t0 /\ (d | t0) /\ t0 <= c_when c0 < t0 + d.
+Proof. exact start_is_floor. Qed.
+Print Assumptions C19_start.
+
+(* along the history of every branch each tick is max(previous tick, elapsed periods since t0),
+   starting from 0; [tick_chain] is unfolded by C19_tick_chain_unfold *)
+Theorem C19_tick_history : forall cfg pre b0 c0 rest s' outs,
+  0 < initialize (configure cfg) ->
+  Forall no_consume pre ->
+  Forall (fun o => index_nonzero o = true) rest ->
+  run (init_sys cfg) (pre ++ OConsume b0 0 c0 :: rest) = (s', outs) ->
+  nth_error outs (length pre) <> Some RBad ->
+  let d := initialize (configure cfg) in
+  forall l, In l (lineages (pre ++ OConsume b0 0 c0 :: rest) outs [[]]) ->
+    tick_chain (spec_t0 (c_when c0) d) d 0 l = true.
+Proof. exact history_tick_chain. Qed.
+Print Assumptions C19_tick_history.
+
+Theorem C19_tick_chain_unfold : forall t0 d p c k l,
+  tick_chain t0 d p ((c, k) :: l) = true <->
+  k = (if in_range t0 (c_when c) then Z.max p ((c_when c - t0) / d)
+       else Z.max p (Z.quot (time_sub (c_when c) t0) d)) /\
+  tick_chain t0 d k l = true.
+Proof. exact tick_chain_cons. Qed.
+Print Assumptions C19_tick_chain_unfold.
+
+(* committer times that never decrease along the history of a branch and are not before the first
+   analysed commit: nothing is raised, the tick is a function of the commit alone *)
+Theorem C19_commit_alone : forall cfg pre b0 c0 rest s' outs,
+  0 < initialize (configure cfg) ->
+  Forall no_consume pre ->
+  Forall (fun o => index_nonzero o = true) rest ->
+  run (init_sys cfg) (pre ++ OConsume b0 0 c0 :: rest) = (s', outs) ->
+  nth_error outs (length pre) <> Some RBad ->
+  let d := initialize (configure cfg) in
+  let t0 := spec_t0 (c_when c0) d in
+  forall l, In l (lineages (pre ++ OConsume b0 0 c0 :: rest) outs [[]]) ->
+    Sorted Z.le (c_when c0 :: times l) ->
+    forall c k, In (c, k) l ->
+      k = Z.quot (time_sub (c_when c) t0) d /\
+      (in_range t0 (c_when c) = true -> k = (c_when c - t0) / d).
+Proof. exact history_commit_alone. Qed.
+Print Assumptions C19_commit_alone.
+
+(* ... and every consumed commit is listed exactly once in the whole registry, provided a commit
+   that is consumed again (a merge commit replayed on another branch) has parents and is the same
+   commit (same committer time): [replays_ok] *)
+Theorem C19_registry_exactly_once : forall cfg pre b0 c0 rest s' outs,
+  0 < initialize (configure cfg) ->
+  Forall no_consume pre ->
+  Forall (fun o => index_nonzero o = true) rest ->
+  run (init_sys cfg) (pre ++ OConsume b0 0 c0 :: rest) = (s', outs) ->
+  nth_error outs (length pre) <> Some RBad ->
+  (forall l, In l (lineages (pre ++ OConsume b0 0 c0 :: rest) outs [[]]) -> Sorted Z.le (c_when c0 :: times l)) ->
+  replays_ok (consumed (pre ++ OConsume b0 0 c0 :: rest) outs) = true ->
+  forall c k, In (c, k) (consumed (pre ++ OConsume b0 0 c0 :: rest) outs) ->
+    reg_count (commits (sh s')) (c_hash c) = 1%nat.
+Proof. exact registry_exactly_once. Qed.
+Print Assumptions C19_registry_exactly_once.
+
+(* the boolean domain test of the replay driver implies the shape assumed by the four theorems above *)
+Theorem C19_shape_sound : forall ops outs c0, shape ops outs = Some c0 ->
+  exists pre b0 rest, ops = pre ++ OConsume b0 0 c0 :: rest /\ Forall no_consume pre /\
+    Forall (fun o => index_nonzero o = true) rest /\ nth_error outs (length pre) <> Some RBad.
+Proof. exact shape_sound. Qed.
+Print Assumptions C19_shape_sound.
+
+(* ---------------------------------------------------------------- non-vacuity and boundary examples *)
+
+Definition mk (h sec : Z) (p : nat) : commit := {| c_hash := h; c_when := time_of_unix sec 0; c_parents := p |}.
+Definition day : Z := 86400.
+Definition jan2020 : Z := 1577872800. (* 2020-01-01 10:00 UTC *)
+
+(* a pristine clone, the first commit, a fork, two different suffixes, the merge commit replayed on
+   both branches, Merge, a second root emerging from the pristine clone *)
+Definition ex_ops : list op :=
+  [OFork 0 1; OConsume 0 0 (mk 1 jan2020 0); OFork 0 1; OConsume 0 1 (mk 2 (jan2020 + day) 1);
+   OConsume 2 2 (mk 3 (jan2020 + 2 * day + 50000) 1);
+   OConsume 0 3 (mk 4 (jan2020 + 3 * day) 2); OConsume 2 4 (mk 4 (jan2020 + 3 * day) 2); OMerge [0%nat; 2%nat];
+   OFork 1 1; OConsume 3 5 (mk 5 (jan2020 + 3 * day) 0)].
+
+Example C19_example_run :
+  let '(s', outs) := run (init_sys (CHours 24)) ex_ops in
+  outs = [RFork 1; RTick 0; RFork 2; RTick 1; RTick 2; RTick 3; RTick 3; RUnit; RFork 3; RTick 3] /\
+  commits (sh s') = [(0, [1]); (1, [2]); (2, [3]); (3, [4; 5])] /\
+  tick0 (sh s') = time_of_unix 1577836800 0 /\
+  shape ex_ops outs = Some (mk 1 jan2020 0) /\
+  forallb (mono_times (time_of_unix jan2020 0)) (lineages ex_ops outs [[]]) = true /\
+  replays_ok (consumed ex_ops outs) = true /\
+  map (reg_count (commits (sh s'))) [1; 2; 3; 4; 5] = [1; 1; 1; 1; 1]%nat.
+Proof. vm_compute. repeat split; reflexivity. Qed.
+
+(* committer times that go back on one branch: the merge commit 3 is raised to tick 10 on branch 0,
+   gets tick 5 on branch 1, and is listed under both ticks (the scan looks at one tick only) *)
+Example C19_example_replay_under_two_ticks :
+  let ops := [OConsume 0 0 (mk 1 jan2020 0); OFork 0 1; OConsume 0 1 (mk 2 (jan2020 + 10 * day) 1);
+              OConsume 0 2 (mk 3 (jan2020 + 5 * day) 2); OConsume 1 3 (mk 3 (jan2020 + 5 * day) 2); OMerge [0%nat; 1%nat]] in
+  let '(s', outs) := run (init_sys (CHours 24)) ops in
+  outs = [RTick 0; RFork 1; RTick 10; RTick 10; RTick 5; RUnit] /\
+  commits (sh s') = [(0, [1]); (10, [2; 3]); (5, [3])] /\ reg_count (commits (sh s')) 3 = 2%nat.
+Proof. vm_compute. repeat split; reflexivity. Qed.
+
+(* a commit without parents that is consumed twice is listed twice under one tick *)
+Example C19_example_root_replayed :
+  let ops := [OConsume 0 0 (mk 1 jan2020 0); OFork 0 1; OConsume 0 1 (mk 2 (jan2020 + day) 0); OConsume 1 2 (mk 2 (jan2020 + day) 0)] in
+  commits (sh (fst (run (init_sys (CHours 24)) ops))) = [(0, [1]); (1, [2; 2])].
+Proof. vm_compute. reflexivity. Qed.
+
+(* beyond the range of time.Duration: first commit 1970-01-01, second 2300-01-01, 24 h ticks:
+   120530 days have passed, the tick is (2^63-1) ns quot 24 h = 106751 *)
+Example C19_example_saturation :
+  snd (run (init_sys (CHours 24)) [OConsume 0 0 (mk 1 0 0); OConsume 0 1 (mk 2 10413792000 1)]) = [RTick 0; RTick 106751] /\
+  (time_of_unix 10413792000 0 - time_of_unix 0 0) / (24 * hour) = 120530 /\
+  in_range (time_of_unix 0 0) (time_of_unix 10413792000 0) = false.
+Proof. vm_compute. repeat split; reflexivity. Qed.
+
+(* a second root that is 400 days older than the first analysed commit: elapsed time negative,
+   truncated division and the clamp give tick 0 *)
+Example C19_example_before_start :
+  snd (run (init_sys (CHours 24))
+         [OFork 0 1; OConsume 0 0 (mk 1 jan2020 0); OFork 1 1; OConsume 2 1 (mk 2 (jan2020 - 400 * day) 0);
+          OConsume 2 2 (mk 3 (jan2020 + 2 * day) 1)])
+  = [RFork 1; RTick 0; RFork 2; RTick 0; RTick 2].
+Proof. vm_compute. reflexivity. Qed.
+
+(* flooring at period boundaries, also before 1970 and before year 1 *)
+Example C19_example_floor :
+  floor_time (time_of_unix 86399 999999999) (24 * hour) = time_of_unix 0 0 /\
+  floor_time (time_of_unix 86400 0) (24 * hour) = time_of_unix 86400 0 /\
+  floor_time (time_of_unix (-1) 0) (24 * hour) = time_of_unix (-86400) 0 /\
+  floor_time (-1) (24 * hour) = - (24 * hour) /\
+  floor_time (time_of_unix 45000 0) (24 * hour) = time_of_unix 0 0.
+Proof. vm_compute. repeat split; reflexivity. Qed.
